@@ -53,4 +53,13 @@ TEXTS = {
                     "relations. Counter-example search with shrinking."),
         level_note=("Trusted: the harness's pair loop and its reading of the documented lag/direction/tolerance rules (listed as assumptions), rapidcheck. "
                     "n<=150 samples; pairs within 1e-6.dpas of a class or angular limit are not generated.")),
+    "C07": dict(
+        engine="rapidcheck",
+        technique="model-based / stateful property testing (rapidcheck): generated histories of Db editing operations, a plain table model as reference, full invariant check after every step, whole history shrinks",
+        design_ref="DESIGN.md §5 C07",
+        level_text=("Exploration over histories: thousands (quick) to 300 000 (thorough) generated edit sequences of up to 60 operations; after each operation the "
+                    "Db is compared cell by cell and designation by designation with an independent table model. Counter-example search with shrinking of the "
+                    "whole sequence; no claim beyond the explored histories."),
+        level_note=("Trusted: the table model of the harness and its reading of the documented semantics of each editing call (assumptions in the evidence), rapidcheck. "
+                    "Tables <= 12 columns x 14 samples, 2-D unrotated grids; names limited to a regex-safe alphabet.")),
 }
